@@ -10,7 +10,7 @@ from ..parloop import classify_writes, is_parallel
 from ..peval import Unsupported
 from ..poly import Poly, Rat
 from ..source import norm
-from .kernel_rules import run_kernel, KERNEL, Wrapped
+from .kernel_rules import run_kernel, run_kernel_paths, KERNEL, Wrapped
 
 MAP = "plot/map.py::map"
 CELL = "layers[0]['dx']"
@@ -26,14 +26,15 @@ def _unwrap(w, op):
 
 def check_kernel_containment(run, tree):
     """C03.R1: the store happens only under full closed containment on every available axis."""
+    paths = []
     for ndim in (3, 2, 1):
-        construct = "%s::containment[ndim=%d]" % (KERNEL, ndim)
         try:
-            fi, ev, env = run_kernel(tree, ndim)
+            paths += [(ndim, lab) + tuple(rest) for (lab, *rest) in run_kernel_paths(tree, ndim)]
         except Unsupported as e:
             fi = tree.func(KERNEL)
-            run.unresolved(construct, fi.where(), "cannot evaluate the kernel symbolically: %s" % e)
-            continue
+            run.unresolved("%s::containment[ndim=%d]" % (KERNEL, ndim), fi.where(), "cannot evaluate the kernel symbolically: %s" % e)
+    for ndim, plabel, fi, ev, env in paths:
+        construct = "%s::containment[ndim=%d]%s" % (KERNEL, ndim, plabel)
         run.analysed(fi)
         stores = [s for s in ev.stores if s[0] == "out"]
         if len(stores) != 1:
@@ -88,14 +89,21 @@ def check_kernel_containment(run, tree):
 def check_kernel_footprint(run, tree):
     """C03.R3: the pixel index window of a cell is conservative and correctly paired with the grid axes."""
     try:
-        fi, ev, env = run_kernel(tree, 3)
+        all_paths = run_kernel_paths(tree, 3)
     except Unsupported as e:
         fi = tree.func(KERNEL)
         run.unresolved(KERNEL + "::footprint", fi.where(), "cannot evaluate the kernel symbolically: %s" % e)
         return
+    for plabel, fi, ev, env in all_paths:
+        _check_footprint_path(run, fi, ev, env, plabel)
+    fi, ev, env = all_paths[0][1:]
+    _check_allocation(run, fi, ev, env)
+
+
+def _check_footprint_path(run, fi, ev, env, plabel):
     loops = ev.loops
     if len(loops) < 4:
-        run.unresolved(KERNEL + "::footprint", fi.where(), "expected cell loop(s) and 3 pixel loops")
+        run.unresolved(KERNEL + "::footprint" + plabel, fi.where(), "expected cell loop(s) and 3 pixel loops")
         return
     loops = loops[-4:]
     n = loops[0][0]
@@ -103,7 +111,7 @@ def check_kernel_footprint(run, tree):
     sq = Poly.sym("sqrt(ndim)")
     # loop order k,j,i must pair with shape positions 0,1,2 and with the z,y,x arrays
     for pos, (var, lo, hi), ax in zip(range(3), loops[1:], "zyx"):
-        construct = "%s::footprint[%s]" % (KERNEL, ax)
+        construct = "%s::footprint[%s]%s" % (KERNEL, ax, plabel)
         p = Poly.sym("cell_positions_in_new_basis_%s[%s]" % (ax, n))
         l = Poly.sym("grid_lower_edge_in_new_basis_%s" % ax)
         s = Poly.sym("grid_spacing_in_new_basis_%s" % ax)
@@ -142,10 +150,24 @@ def check_kernel_footprint(run, tree):
         elif inner_hi is not None:
             H = Rat.lift(inner_hi) * s + Rat.lift(l) - Rat.lift(p)
             problems += _check_half_extent(H, cs, sq, "upper")
+        if problems and ev.path:
+            # one-pixel window on a path: the pixel holding the cell centre is the only one whose centre can lie within the half extent
+            # of the cell PROVIDED the path condition bounds the full extent below the spacing of THIS axis (2 * half extent < spacing)
+            bounded = any(t.op == "<" and isinstance(t.b, Poly) and t.b == s and isinstance(t.a, Poly) and t.a == Poly.const(2) * cs * sq for t in ev.path)
+            one_pixel = inner_lo is not None and (Rat.lift(inner_lo) * s == Rat.lift(p) - Rat.lift(l)) and isinstance(hi, Wrapped) and hi.op == "min" and \
+                isinstance(hi.args[0], Wrapped) and hi.args[0].op == "add" and hi.args[0].args[0] == lo and hi.args[1] == N
+            if bounded and one_pixel:
+                problems = []
+            elif one_pixel:
+                problems = ["on this path the window along %s is the single pixel holding the cell centre, but nothing on the path bounds the cell against the %s spacing "
+                            "(path condition: %s): a cell wider than a pixel along %s reaches pixels that are never visited" % (ax, ax, ", ".join(repr(t) for t in ev.path), ax)]
         run.ob(construct, not problems, fi.where(), "; ".join(problems) or
                "indices from (p -/+ cell_size*sqrt(ndim) - lower_edge)/spacing, clamped to [0, n%s]" % ax,
                "for an oblique orientation (in-plane axis with |a|_1 > the factor used) or a thick map along %s, sample points "
                "inside a cell but far from its centre are never visited and stay masked" % ax)
+
+
+def _check_allocation(run, fi, ev, env):
     # allocation
     out = env.get("out")
     ok = isinstance(out, tuple) and out[0] == "alloc" and isinstance(out[1], tuple) and len(out[1]) == 4 and \
@@ -250,9 +272,11 @@ def check_kernel_schedule(run, tree):
             # the conditions the store executes under, from the symbolic evaluation of the kernel (enclosing tests, flags assigned from
             # tests, `if not inside: continue` clauses alike)
             try:
-                from .kernel_rules import run_kernel
-                _, kev, _ = run_kernel(tree, 3)
-                terms = [t for rec in kev.stores if rec[5] is st for g in rec[3] for t in g.terms]
+                # on every path of the kernel the store must be guarded: the conditions common to all paths count
+                per_path = []
+                for _, _, kev, _ in run_kernel_paths(tree, 3):
+                    per_path.append([t for rec in kev.stores if rec[5] is st for g in rec[3] for t in g.terms])
+                terms = [t for t in per_path[0] if all(any(repr(t) == repr(u) for u in other) for other in per_path[1:])] if per_path else []
             except Unsupported as e:
                 if not [g for g in guards if g[1]]:
                     # no enclosing test at all: unguarded whatever the rest of the kernel looks like
